@@ -491,7 +491,12 @@ def r20_7(rep, prog):
             inst = '%s:%s scans all input channels for digital silence' % (prog.config, f.name)
             where = '%s:%s' % (f.file, sx.line(c))
             rep.functions.add(f.name)
-            if sx.kind(ch) == 'field' and ch[3] == 'channels':
+            ln_ = sx.strip(c[2][1])
+            if sx.kind(a0) == 'param' and not (sx.kind(ln_) == 'param' and ln_[2] == 'frame_size'):
+                rep.violated('R20.7', '%s:%s scans the whole packet it was given for digital silence' % (prog.config, f.name), where,
+                             'the pointer is the start of the input (`%s`) but the length is `%s`, not frame_size: only the head of a multi-frame packet is looked at, and activity resuming later in it is sent as DTX' % (sx.show(a0), sx.show(ln_)),
+                             key='%s:%s:len' % (f.name, sx.line(c)))
+            elif sx.kind(ch) == 'field' and ch[3] == 'channels':
                 rep.holds('R20.7', inst, where, 'channel count `%s`' % sx.show(ch))
             else:
                 rep.violated('R20.7', inst, where, 'the input buffer `%s` is interleaved by st->channels but is scanned with `%s`: part of every frame is not looked at, and a frame with audio there is declared silent (sent as DTX)' % (
